@@ -8,6 +8,8 @@ func UESecurityCapabilityToByteArray(buf []uint8) (nea, nia, eea, eia [2]byte) {
 	nia[0] = buf[1] << 1
 	if len(buf) > 2 {
 		eea[0] = buf[2] << 1
+	}
+	if len(buf) > 3 {
 		eia[0] = buf[3] << 1
 	}
 	return
